@@ -18,6 +18,8 @@ type Entry struct {
 
 var Registry = map[string]Entry{}
 
+var origStderr *os.File
+
 func Register(id string, parent func(*ev.Run), child func(*ev.Run, int)) {
 	Registry[id] = Entry{Parent: parent, Child: child}
 }
@@ -27,7 +29,8 @@ func Register(id string, parent func(*ev.Run), child func(*ev.Run, int)) {
 // is created.
 func Silence() {
 	if f, err := os.OpenFile(os.DevNull, os.O_WRONLY, 0); err == nil {
-		os.Stderr = f // runtime panics still go to fd 2
+		origStderr = os.Stderr // keep fd 2 alive (a dropped *os.File is closed by its finalizer)
+		os.Stderr = f          // runtime panics and SIGQUIT dumps still go to fd 2
 	}
 	stdr.SetVerbosity(0)
 	log.SetOutput(io.Discard)
